@@ -2,7 +2,7 @@
 
 CFG = dict(
     tests=["TestC16"],
-    n_quick=300, n_thorough=2500, shards_thorough=6,
+    n_quick=800, n_thorough=2500, shards_thorough=6,
     rule="two case files from one PRNG. report: corpus + ~70 boundary families (median odd/even/ties/faulty extremes, "
          "undecodable / oversized / '+5' '05' '-0' 2^64 2^256 block and id strings, id lists beyond the limit, duplicates, "
          "every in-flight state of the real coordinator (accepted, perform log at / before the median, stale log check+1 / check+2, "
